@@ -7,13 +7,13 @@ RULE = ("one case = one history of begin-flow (authorize_redirect) / callback (a
         "Every step output and the final session / cache contents are compared with the Lean model; non-trivial = distinct history")
 ASSUMPTIONS = ["state, code_verifier and nonce generation replaced by a deterministic counter (the values are opaque to the integration)",
                "the shared cache is a plain key-value object without expiry; framework sessions are dicts carried between requests by the harness",
-               "the OAuth 1 apps use the same get/set/clear_state_data functions keyed by oauth_token; they are not driven separately"]
+               "OAuth 1 providers are driven with the PLAINTEXT signature method so that the token secret that signed the access-token request is visible on the wire"]
 
 NAME_SETS = [["p1", "p2"], ["p1", "p2"], ["a", "a_b"]]
 
 
 def mk_world(c):
-    return cw.ClientWorld(c["fw"], c["names"], c["cache"], c["pkce"], c["openid"])
+    return cw.ClientWorld(c["fw"], c["names"], c["cache"], c["pkce"], c["openid"], oauth1=c.get("oauth1", False), rotate=c.get("rotate", False))
 
 
 def run_op(w, op):
@@ -68,6 +68,10 @@ def configs():
             for pkce in (False, True):
                 for openid in (False, True):
                     out.append({"fw": fw, "cache": cache, "pkce": pkce, "openid": openid})
+            # OAuth 1 providers: the request token plays the part of the state
+            out.append({"fw": fw, "cache": cache, "pkce": False, "openid": False, "oauth1": True})
+            # OpenID with a rotated provider key: the client re-fetches the JWKS before validating the ID token
+            out.append({"fw": fw, "cache": cache, "pkce": True, "openid": True, "rotate": True})
     return out
 
 
@@ -132,7 +136,7 @@ def model_line(c):
             ops.append({"op": "callback", "sess": op["sess"], "name": op["name"], "state": op.get("state")})
         else:
             ops.append(op)
-    return {"cfg": {"cache": c["cache"], "starlette": c["fw"] == "starlette", "now": cw.NOW0, "defaults": {c["names"][-1]: "https://rp/registered-default"}}, "ops": ops}
+    return {"cfg": {"cache": c["cache"], "starlette": c["fw"] == "starlette", "oauth1": bool(c.get("oauth1")), "now": cw.NOW0, "defaults": {} if c.get("oauth1") else {c["names"][-1]: "https://rp/registered-default"}}, "ops": ops}
 
 
 def model_canon(mo):
@@ -201,8 +205,11 @@ def oracle(c, out):
                     why, kind = "a state no authorization redirect of this provider created", "unknown-state"
                 bad(f"{c['fw']}/{mode}: the callback for provider {op['name']!r} in session {op['sess']} exchanged the code with {why} (state={op.get('state')!r})", kind=kind)
             else:
-                if o["requests"] != 1 or o["endpoint"] != f"https://{op['name']}.example/token":
+                if o["requests"] != 1 or o["endpoint"] != f"https://{op['name']}.example/" + ("access" if c.get("oauth1") else "token"):
                     bad("the code was not sent exactly once to the provider's own token endpoint", kind="wrong-endpoint")
+                if c.get("oauth1") and (o["sent"]["token"] != op.get("state") or o["sent"]["verifier"] != "rs" + str(op.get("state"))[2:]):
+                    bad(f"the access-token request for request token {op.get('state')!r} carried token {o['sent']['token']!r} signed with secret {o['sent']['verifier']!r}, "
+                        "not the request token saved for this flow", kind="wrong-request-token")
                 if o["sent"]["redirect"] != b["url_redirect"]:
                     bad(f"redirect_uri sent to the token endpoint ({o['sent']['redirect']!r}) is not the one of the authorization request ({b['url_redirect']!r})", kind="wrong-redirect")
                 if c["pkce"] and (not o["sent"]["verifier"] or cw.s256(o["sent"]["verifier"]) != b["url_challenge"]):
@@ -221,11 +228,11 @@ def oracle(c, out):
 
 def classify(c, out):
     kinds = sorted({op.get("kind", "-") for op in c["ops"] if op["op"] == "callback"})
-    return f"{c['fw']}/{'cache' if c['cache'] else 'session'}/pkce={int(c['pkce'])}/openid={int(c['openid'])}/" + ("+".join(kinds)[:60] or "none")
+    return f"{c['fw']}/{'cache' if c['cache'] else 'session'}/{'oauth1' if c.get('oauth1') else 'rotated-jwks' if c.get('rotate') else 'oauth2'}/pkce={int(c['pkce'])}/openid={int(c['openid'])}/" + ("+".join(kinds)[:60] or "none")
 
 
 def nontrivial(c, out):
-    return (c["fw"], c["cache"], c["pkce"], c["openid"], [(o["op"], o.get("sess"), o.get("name"), o.get("state"), o.get("id_nonce"), o.get("fail")) for o in c["ops"]])
+    return (c["fw"], c["cache"], c["pkce"], c["openid"], c.get("oauth1", False), c.get("rotate", False), [(o["op"], o.get("sess"), o.get("name"), o.get("state"), o.get("id_nonce"), o.get("fail")) for o in c["ops"]])
 
 
 def search(breaks, rng, known, match_known):
